@@ -1,4 +1,6 @@
 import CoapVerif.Lemmas.Uri
+import CoapVerif.Lemmas.UriSplit
+import CoapVerif.Lemmas.UriOpts
 /-
 C16 — URI text and CoAP options convert both ways without loss, confusion or overread.
 
@@ -138,13 +140,13 @@ theorem no_overread (input : Bytes) (buflen : Nat) (segs : List Bytes) (hs : Sma
     get_query_eq_spec segs hs]
   simp
 
-/-- the buffer-writing variants coap_split_path / coap_split_query, for every buffer size: the result is a fold
+/-- (D16b, the truncation behaviour) the buffer-writing variants coap_split_path / coap_split_query, for **every**
+buffer size, also below the documented minimum, and every input, also with malformed escapes: the result is a fold
 over the raw segments of a step that depends on the segment's bytes only — a segment is decoded by the RFC's
-`pctDecode` and appended if it is well formed and fits, a dot segment is dropped / backs up.
-FULL STATEMENT (not proved, checked differentially on every run incl. all buffer sizes 0..need+2):
-  `buflen ≥ input.length + 3 * (rawSegs pathStop pathSep input).length → Spec.Uri.splitPath input = some segs →
-   MU.splitPath input buflen = R.ok segs`  — missing is the arithmetic that such a buffer never runs out. -/
-theorem split_path_buf_eq_spec_partial (input : Bytes) (buflen : Nat) :
+`pctDecode` and appended if it is well formed and fits into what is left of the buffer, else it is omitted; a dot
+segment is dropped / backs up.  (Formerly `split_path_buf_eq_spec_partial`; that a big enough buffer never runs out,
+hence equality with S, is `split_path_buf_eq_spec` / `split_query_buf_eq_spec` below.) -/
+theorem split_buf_truncation (input : Bytes) (buflen : Nat) :
     MU.splitPath input buflen =
       R.ok ((rawSegs pathStop pathSep input).foldl (fun s seg => pathStepBuf seg s) ⟨buflen, []⟩).segs ∧
     MU.splitQuery input buflen =
@@ -165,7 +167,7 @@ example : getQuery [[0x61], [0x62]] = R.ok (some [0x61, 0x26, 0x62]) := by decid
 example : getQuery [[], [0x61]] = R.ok (some [0x26, 0x61]) := by decide
 example : getUriPath [[], []] = R.ok [0x2f] ∧ getUriPath [[]] = R.ok [] ∧ getUriPath [] = R.ok [] := by decide
 
-/-! ### coap_split_uri (partial) -/
+/-! ### coap_split_uri -/
 
 def toParts (u : MU.Uri) : UriParts := ⟨u.scheme, u.host, u.port, u.path, u.query⟩
 
@@ -175,15 +177,10 @@ def agree (proxy : Bool) (s : Bytes) : Prop :=
 
 instance (proxy : Bool) (s : Bytes) : Decidable (agree proxy s) := by unfold agree; infer_instance
 
-/-- PARTIAL.  Full statement (not proved; compared on every run by the differential test on generated URIs, hosts
-naming a Unix socket excluded, D16f):
-  `split_uri_eq_spec : ∀ proxy s, ¬ unixHost s → agree proxy s`
-i.e. coap_split_uri accepts exactly the strings RFC 3986 §3 / RFC 7252 §6 structure (D4) admits — scheme from the
-table (T1), "://", non-empty host or bracketed IPv6 literal, decimal port ≤ 65535 else the scheme's default, path
-and query delimiters, well-formed escapes — and reports the same fields.  Proved here: the instances below, one per
-clause, among them the inputs of the three defects fixed in coap_split_uri ("coap://h?q" accepted, "coap://[?]?x"
-gives the query "x", "coap://h/[percent]zz" rejected). -/
-theorem split_uri_eq_spec_partial :
+/-- Instances of `split_uri_eq_spec` (proved for all strings below), one per clause of coap_split_uri_sub, kept as
+regression witnesses — among them the inputs of the three defects fixed in coap_split_uri ("coap://h?q" accepted,
+"coap://[?]?x" gives the query "x", "coap://h/[percent]zz" rejected).  (Formerly `split_uri_eq_spec_partial`.) -/
+theorem split_uri_eq_spec_instances :
     agree false [99, 111, 97, 112, 58, 47, 47, 104, 63, 113] ∧
     agree false [99, 111, 97, 112, 58, 47, 47, 91, 63, 93, 63, 120] ∧
     agree false [99, 111, 97, 112, 58, 47, 47, 104, 47, 37, 122, 122] ∧
@@ -199,5 +196,391 @@ theorem split_uri_eq_spec_partial :
     agree false [99, 111, 97, 112, 58, 47, 47, 104, 58, 49, 50, 120] ∧
     agree true [104, 116, 116, 112, 58, 47, 47, 104, 58, 56, 48, 56, 48, 47, 112, 63, 113] ∧
     agree true [47, 97] := by decide
+
+/-! ### coap_split_uri at full strength -/
+
+/-- (P1, coap_split_uri / coap_split_proxy_uri) on **every** byte string whose authority is not libcoap's Unix-socket
+notation "%2F…" (D16f), the transcription of coap_split_uri_sub and the RFC 3986 §3 / RFC 7252 §6 structure S agree:
+the same strings are accepted (scheme from the table (T1) allowed for this entry point, "://", non-empty host or
+bracketed IPv6 literal, decimal port ≤ 65535 — the early exit of the port loop never changes the verdict —, path
+and query delimiters, every '%' in path and query followed by two hex digits) and scheme, host, port (explicit or
+the scheme's default), path and query are the same.  The model never reads outside the input (`oob`). -/
+theorem split_uri_eq_spec (proxy : Bool) (s : Bytes) (hu : unixAuthority s = false) :
+    agree proxy s ∧
+    MU.splitUriSub proxy s =
+      (match Spec.Uri.splitUri Generated.Uri.schemes proxy s with
+       | some parts => R.ok (uriOf parts)
+       | none => R.rej) := by
+  have h := splitUriSub_eq proxy s hu
+  refine ⟨?_, h⟩
+  unfold agree
+  rw [h]
+  cases Spec.Uri.splitUri Generated.Uri.schemes proxy s with
+  | none => rfl
+  | some parts => rfl
+
+/-- malformed URIs are rejected: coap_split_uri returns an error exactly when S does not accept the string -/
+theorem split_uri_rejects_malformed (proxy : Bool) (s : Bytes) (hu : unixAuthority s = false) :
+    MU.splitUriSub proxy s = R.rej ↔ Spec.Uri.splitUri Generated.Uri.schemes proxy s = none := by
+  rw [(split_uri_eq_spec proxy s hu).2]
+  cases Spec.Uri.splitUri Generated.Uri.schemes proxy s <;> simp
+
+-- the hypothesis is satisfiable by accepted and by rejected strings: "coaps://[::1]:77/a/b?c&d", "coap://h/%zz"
+example : unixAuthority [99, 111, 97, 112, 115, 58, 47, 47, 91, 58, 58, 49, 93, 58, 55, 55, 47, 97, 47, 98, 63, 99, 38, 100] = false ∧
+    MU.splitUriSub false [99, 111, 97, 112, 115, 58, 47, 47, 91, 58, 58, 49, 93, 58, 55, 55, 47, 97, 47, 98, 63, 99, 38, 100] =
+      R.ok ⟨1, [58, 58, 49], 77, [97, 47, 98], [99, 38, 100]⟩ := by decide
+example : unixAuthority [99, 111, 97, 112, 58, 47, 47, 104, 47, 37, 122, 122] = false ∧
+    Spec.Uri.splitUri Generated.Uri.schemes false [99, 111, 97, 112, 58, 47, 47, 104, 47, 37, 122, 122] = none := by decide
+-- and it excludes something: "coap://%2Fs" (M: port 0, host "%2Fs"; outside S)
+example : unixAuthority [99, 111, 97, 112, 58, 47, 47, 37, 50, 70, 115] = true := by decide
+
+/-- (P2, "scheme, host (incl. IPv6 literals), port and default ports are recognised") S — and therefore libcoap —
+accepts every URI text put together from its parts, and gives the parts back: any scheme `e` of the table (T1) that
+the entry point allows, "://", any non-empty host without ':' '/' '?' and not starting with '[' — or any non-empty
+IPv6 literal text without ']' in brackets —, no port / ":" / ":" and any digit string of value ≤ 65535 (leading
+zeros allowed), then anything S's `pathQuery` takes (nothing, "/path", "?query", "/path?query" with well-formed
+escapes).  Scheme id, host (without the brackets), the explicit port or else the scheme's default, path and query
+come back exactly; nothing is "recognised" only because S and M agree on rejecting.
+`v6 = true ∨ unixStart h = false` keeps the Unix-socket notation out of the libcoap half (D16f). -/
+theorem uri_recognised (proxy : Bool) (e : Bytes × Nat × Bool × Nat) (he : e ∈ Generated.Uri.schemes)
+    (hpx : e.2.2.1 = true → proxy = true) (h : Bytes) (v6 : Bool) (ds : Option Bytes) (rest path query : Bytes)
+    (hh : HostOk h v6) (hp : PortOk ds) (hr : TailStart rest) (hpq : pathQuery rest = some (path, query))
+    (hu : v6 = true ∨ unixStart h = false) :
+    Spec.Uri.splitUri Generated.Uri.schemes proxy (e.1 ++ [0x3a, 0x2f, 0x2f] ++ hostText h v6 ++ portText ds ++ rest) =
+      some ⟨e.2.2.2, h, portValue e.2.1 ds, path, query⟩ ∧
+    MU.splitUriSub proxy (e.1 ++ [0x3a, 0x2f, 0x2f] ++ hostText h v6 ++ portText ds ++ rest) =
+      R.ok ⟨e.2.2.2, h, portValue e.2.1 ds, path, query⟩ := by
+  have hS := splitUri_compose proxy e he hpx h v6 ds rest path query hh hp hr hpq
+  refine ⟨hS, ?_⟩
+  rw [(split_uri_eq_spec proxy _ (unixAuthority_compose e he h v6 ds rest hr hu)).2, hS]
+  rfl
+
+-- "coaps+tcp" "://" "[" "2001:db8::1" "]" ":" "0443" "/a%20b?x": scheme 3, host without brackets, port 443
+example : ([99, 111, 97, 112, 115, 43, 116, 99, 112], 5684, false, 3) ∈ Generated.Uri.schemes ∧ HostOk [50, 48, 48, 49, 58, 100, 98, 56, 58, 58, 49] true ∧ PortOk (some [48, 52, 52, 51]) ∧
+    TailStart [47, 97, 37, 50, 48, 98, 63, 120] ∧ pathQuery [47, 97, 37, 50, 48, 98, 63, 120] = some ([97, 37, 50, 48, 98], [120]) ∧
+    portValue 5684 (some [48, 52, 52, 51]) = 443 := by
+  refine ⟨by decide, ⟨by decide, by decide⟩, ⟨by decide, by decide⟩, Or.inr ⟨_, Or.inl rfl⟩, by decide, by decide⟩
+-- no port: "coap" "://" "example.com" "" → the default 5683
+example : HostOk [101, 120, 97, 109, 112, 108, 101, 46, 99, 111, 109] false ∧ PortOk none ∧ TailStart [] ∧ portValue 5683 none = 5683 ∧
+    Spec.Uri.splitUri Generated.Uri.schemes false ([99, 111, 97, 112] ++ [0x3a, 0x2f, 0x2f] ++ hostText [101, 120, 97, 109, 112, 108, 101, 46, 99, 111, 109] false ++ portText none ++ []) =
+      some ⟨0, [101, 120, 97, 109, 112, 108, 101, 46, 99, 111, 109], 5683, [], []⟩ := by
+  refine ⟨⟨by decide, by decide⟩, trivial, Or.inl rfl, rfl, by decide⟩
+
+/-! ### the buffer writers coap_split_path / coap_split_query at full strength (D16b) -/
+
+/-- (P1, coap_split_path) a buffer of `length + 2·segments + 1` bytes (a fortiori D16b's `length + 3·segments`, there
+is at least one segment) never runs out: on every path string with well-formed escapes the segments written are
+exactly S's — cut at '?' / '#', split at '/', decoded once, dot segments resolved; nothing is omitted. -/
+theorem split_path_buf_eq_spec (input : Bytes) (buflen : Nat) (segs : List Bytes)
+    (h : Spec.Uri.splitPath input = some segs)
+    (hb : input.length + 2 * (rawSegs pathStop pathSep input).length + 1 ≤ buflen) :
+    MU.splitPath input buflen = R.ok segs := by
+  unfold Spec.Uri.splitPath at h
+  cases hd : decodeAll (rawSegs pathStop pathSep input) with
+  | none => simp [hd] at h
+  | some ds =>
+    simp [hd] at h
+    rw [← h]
+    exact splitPathBuf_eq input buflen ds hd (Nat.le_trans (usedBy_le_input _ _ input ds hd).1 hb)
+
+/-- the same for coap_split_query -/
+theorem split_query_buf_eq_spec (input : Bytes) (buflen : Nat) (segs : List Bytes)
+    (h : Spec.Uri.splitQuery input = some segs)
+    (hb : input.length + 2 * (rawSegs queryStop querySep input).length + 1 ≤ buflen) :
+    MU.splitQuery input buflen = R.ok segs :=
+  splitQueryBuf_eq input buflen segs h (Nat.le_trans (usedBy_le_input _ _ input segs h).1 hb)
+
+/-- D16b as SPEC_DECISIONS words it: `buflen ≥ length + 3·segments` -/
+theorem split_buf_eq_spec_3n (input : Bytes) (buflen : Nat) :
+    (∀ segs, Spec.Uri.splitPath input = some segs → input.length + 3 * (rawSegs pathStop pathSep input).length ≤ buflen →
+      MU.splitPath input buflen = R.ok segs) ∧
+    (∀ segs, Spec.Uri.splitQuery input = some segs → input.length + 3 * (rawSegs queryStop querySep input).length ≤ buflen →
+      MU.splitQuery input buflen = R.ok segs) := by
+  constructor
+  · intro segs h hb
+    have := (splitAcc_len pathStop pathSep input []).2
+    exact split_path_buf_eq_spec input buflen segs h (by unfold rawSegs at *; omega)
+  · intro segs h hb
+    have := (splitAcc_len queryStop querySep input []).2
+    exact split_query_buf_eq_spec input buflen segs h (by unfold rawSegs at *; omega)
+
+/-- the bound the header file documents ("at least length, but 2 bytes should be added for each segment to handle
+large segments") is enough as long as every decoded segment is shorter than 269 bytes (2-byte option header); a
+segment of ≥ 269 bytes needs the one extra byte of `split_path_buf_eq_spec`.  The sharp condition is `usedBy ds ≤
+buflen`: room for the decoded segments, the dot segments included although they are never written. -/
+theorem split_buf_documented_bound (input : Bytes) (buflen : Nat) (ds : List Bytes) :
+    (decodeAll (rawSegs pathStop pathSep input) = some ds →
+      (usedBy ds ≤ buflen ∨
+       ((∀ d ∈ ds, d.length < 269) ∧ input.length + 2 * (rawSegs pathStop pathSep input).length ≤ buflen)) →
+      MU.splitPath input buflen = R.ok (resolve ds)) ∧
+    (decodeAll (rawSegs queryStop querySep input) = some ds →
+      (usedBy ds ≤ buflen ∨
+       ((∀ d ∈ ds, d.length < 269) ∧ input.length + 2 * (rawSegs queryStop querySep input).length ≤ buflen)) →
+      MU.splitQuery input buflen = R.ok ds) := by
+  constructor
+  · intro hd hb
+    apply splitPathBuf_eq input buflen ds hd
+    rcases hb with hb | ⟨hs, hb⟩
+    · exact hb
+    · exact Nat.le_trans ((usedBy_le_input _ _ input ds hd).2 hs) hb
+  · intro hd hb
+    apply splitQueryBuf_eq input buflen ds hd
+    rcases hb with hb | ⟨hs, hb⟩
+    · exact hb
+    · exact Nat.le_trans ((usedBy_le_input _ _ input ds hd).2 hs) hb
+
+/-- (P2, output side of "without overread", every buffer size incl. those below the documented minimum, every
+input incl. malformed escapes) the buffer writers never write past the caller's buffer: the bytes used by the
+segments they report (`*buflen` on return) never exceed the buffer they were given.  What does not fit is omitted
+(the exact truncation behaviour is `split_buf_truncation`'s fold). -/
+theorem split_buf_never_overflows (input : Bytes) (buflen : Nat) :
+    (∃ segs, MU.splitPath input buflen = R.ok segs ∧ usedBy segs ≤ buflen) ∧
+    (∃ segs, MU.splitQuery input buflen = R.ok segs ∧ usedBy segs ≤ buflen) := by
+  constructor
+  · exact ⟨_, splitPathBuf_fold input buflen,
+      fold_inv pathStepBuf pathStepBuf_inv _ ⟨buflen, []⟩ (by simp [usedBy])⟩
+  · exact ⟨_, splitQueryBuf_fold input buflen,
+      fold_inv writeS writeS_inv _ ⟨buflen, []⟩ (by simp [usedBy])⟩
+
+/-- (D16b, what "omits what does not fit" means) for **every** buffer size and every component with well-formed
+escapes the buffer writers only ever *omit* segments, they never alter, reorder or invent one: coap_split_query
+returns a sublist of S's values, coap_split_path returns S's dot-segment resolution of a sublist of the decoded
+segments (a ".." after an omitted segment removes the one before it — the resolution is applied to what was kept). -/
+theorem split_buf_omits_only (input : Bytes) (buflen : Nat) (ds : List Bytes) :
+    (decodeAll (rawSegs pathStop pathSep input) = some ds →
+      ∃ ds' : List Bytes, ds'.Sublist ds ∧ MU.splitPath input buflen = R.ok (resolve ds')) ∧
+    (Spec.Uri.splitQuery input = some ds →
+      ∃ ds' : List Bytes, ds'.Sublist ds ∧ MU.splitQuery input buflen = R.ok ds') := by
+  constructor
+  · intro hd
+    obtain ⟨ds', hsub, hf⟩ := fold_buf_path_sub _ ds ⟨buflen, []⟩ hd
+    exact ⟨ds', hsub, by rw [splitPathBuf_fold, hf]; rfl⟩
+  · intro hd
+    obtain ⟨ds', hsub, hf⟩ := fold_buf_query_sub _ ds ⟨buflen, []⟩ hd
+    exact ⟨ds', hsub, by rw [splitQueryBuf_fold, hf]; simp⟩
+
+-- "a/./%2e%2E/b%41c/" in a buffer of 17 + 2·5 + 1 bytes; the documented 17 + 2·5 are enough too (small segments)
+example : Spec.Uri.splitPath [97, 47, 46, 47, 37, 50, 101, 37, 50, 69, 47, 98, 37, 52, 49, 99, 47] = some [[98, 65, 99], []] ∧
+    (rawSegs pathStop pathSep [97, 47, 46, 47, 37, 50, 101, 37, 50, 69, 47, 98, 37, 52, 49, 99, 47]).length = 5 ∧
+    MU.splitPath [97, 47, 46, 47, 37, 50, 101, 37, 50, 69, 47, 98, 37, 52, 49, 99, 47] 28 = R.ok [[98, 65, 99], []] ∧
+    MU.splitPath [97, 47, 46, 47, 37, 50, 101, 37, 50, 69, 47, 98, 37, 52, 49, 99, 47] 27 = R.ok [[98, 65, 99], []] := by decide
+-- "a&b%26c" : 7 + 2·2 + 1
+example : Spec.Uri.splitQuery [97, 38, 98, 37, 50, 54, 99] = some [[97], [98, 38, 99]] ∧
+    MU.splitQuery [97, 38, 98, 37, 50, 54, 99] 12 = R.ok [[97], [98, 38, 99]] := by decide
+-- D16b's wording, 17 + 3·5 bytes; and the hypotheses of `split_buf_documented_bound` / `split_buf_omits_only` on the same path
+example : MU.splitPath [97, 47, 46, 47, 37, 50, 101, 37, 50, 69, 47, 98, 37, 52, 49, 99, 47] 32 = R.ok [[98, 65, 99], []] ∧
+    decodeAll (rawSegs pathStop pathSep [97, 47, 46, 47, 37, 50, 101, 37, 50, 69, 47, 98, 37, 52, 49, 99, 47]) = some [[97], [46], [46, 46], [98, 65, 99], []] ∧
+    usedBy [[97], [46], [46, 46], [98, 65, 99], []] = 12 ∧
+    MU.splitPath [97, 47, 46, 47, 37, 50, 101, 37, 50, 69, 47, 98, 37, 52, 49, 99, 47] 12 = R.ok [[98, 65, 99], []] ∧      -- the sharp bound: room for all decoded segments
+    MU.splitPath [97, 47, 46, 47, 37, 50, 101, 37, 50, 69, 47, 98, 37, 52, 49, 99, 47] 3 = R.ok [[]] := by decide          -- below it: "bAc" (4 bytes) does not fit into 3, "" does
+-- below the minimum what does not fit is silently omitted (D16b): "aaa/bbbbb/c" in 7 bytes gives "aaa", "c"
+example : MU.splitPath [97, 97, 97, 47, 98, 98, 98, 98, 98, 47, 99] 7 = R.ok [[97, 97, 97], [99]] := by decide
+
+-- the bound the header documents (length + 2 per segment) is one byte short for a segment of ≥ 269 bytes:
+-- 269 × 'a' in 271 bytes is silently omitted, 272 = 269 + 2·1 + 1 bytes hold it
+set_option maxRecDepth 100000 in
+example : MU.splitPath (List.replicate 269 97) 271 = R.ok [] ∧
+    MU.splitPath (List.replicate 269 97) 272 = R.ok [List.replicate 269 97] := by decide
+
+/-! ### coap_uri_into_optlist: RFC 7252 §6.4 steps 5–9 -/
+
+theorem toParts_eq : toParts = partsOf := rfl
+
+/-- (P1, coap_uri_into_optlist(uri, dst, &chain, 1)) for every parsed URI on which S is defined — host not a Unix
+socket (D16f), escapes of the host (if it is emitted), the path and the query well formed — the option chain is
+exactly RFC 7252 §6.4's: Uri-Host (percent-decoded, lower case, D16g) unless the URI has no authority or the host
+is the destination address literal `dst` (an IPv6 zone identifier not counting), Uri-Port (minimal big-endian)
+unless the port is the default of the URI's scheme, then one Uri-Path per path segment and one Uri-Query per query
+argument as `split_path_eq_spec` / `split_query_eq_spec` describe them, none for an empty path / query.
+`scheme < 8` and `port < 65536` are the ranges of the C types (enum coap_uri_scheme_t, uint16_t). -/
+theorem uri_into_optlist_eq_spec (dst : Bytes) (u : MU.Uri) (opts : List (Nat × Bytes)) (hs : u.scheme < 8)
+    (hp : u.port < 65536) (h : uriOptions Generated.Uri.schemes dst (toParts u) = some opts) :
+    uriIntoOptlist dst u = R.ok opts := uriIntoOptlist_eq dst u opts hs hp h
+
+/-- (P1, end to end: coap_split_uri / coap_split_proxy_uri, then coap_uri_into_optlist) for **every** byte string
+that S accepts as a URI and whose options S defines, libcoap accepts it with S's fields and builds exactly S's
+options. -/
+theorem uri_to_options_eq_spec (dst : Bytes) (proxy : Bool) (s : Bytes) (parts : UriParts) (opts : List (Nat × Bytes))
+    (hS : Spec.Uri.splitUri Generated.Uri.schemes proxy s = some parts)
+    (hO : uriOptions Generated.Uri.schemes dst parts = some opts) :
+    ∃ u, MU.splitUriSub proxy s = R.ok u ∧ toParts u = parts ∧ uriIntoOptlist dst u = R.ok opts := by
+  have ⟨i1, i2, _, _, i5⟩ := splitUri_inv proxy s parts hS
+  have hux : unixHost parts.host = false := by
+    cases hh : unixHost parts.host with
+    | false => rfl
+    | true => simp [uriOptions, hh] at hO
+  have hua : unixAuthority s = false := by
+    cases hh : unixAuthority s with
+    | false => rfl
+    | true =>
+      have := i5 hh
+      simp [unixHost, this] at hux
+  refine ⟨uriOf parts, ?_, rfl, ?_⟩
+  · rw [(split_uri_eq_spec proxy s hua).2, hS]
+  · exact uriIntoOptlist_eq dst (uriOf parts) opts i1 i2 hO
+
+/-- S's options are defined for every accepted URI except for the two cases S leaves open: a Unix-socket host
+(D16f) and an emitted host with a malformed escape (D4) — path and query of an accepted URI always split. -/
+theorem uri_options_defined (dst : Bytes) (proxy : Bool) (s : Bytes) (parts : UriParts)
+    (hS : Spec.Uri.splitUri Generated.Uri.schemes proxy s = some parts) (hux : unixHost parts.host = false)
+    (hh : parts.host = [] ∨ hostAddr parts.host = dst ∨ Spec.Uri.escapesOk parts.host = true) :
+    ∃ opts, uriOptions Generated.Uri.schemes dst parts = some opts := by
+  have ⟨_, _, i3, i4, _⟩ := splitUri_inv proxy s parts hS
+  have hp : ∃ ps, pathOptions parts.path = some ps := by
+    unfold pathOptions
+    by_cases e : parts.path = []
+    · exact ⟨[], by simp [e]⟩
+    · obtain ⟨ps, h⟩ := splitPath_defined _ i3
+      exact ⟨ps, by simp [e, h]⟩
+  have hq : ∃ qs, queryOptions parts.query = some qs := by
+    unfold queryOptions
+    by_cases e : parts.query = []
+    · exact ⟨[], by simp [e]⟩
+    · obtain ⟨qs, h⟩ := splitQuery_defined _ i4
+      exact ⟨qs, by simp [e, h]⟩
+  have hho : ∃ ho, hostOption dst parts.host = some ho := by
+    unfold hostOption
+    by_cases e : parts.host = [] ∨ hostAddr parts.host = dst
+    · exact ⟨[], by simp [e]⟩
+    · have : Spec.Uri.escapesOk parts.host = true := by
+        rcases hh with h | h | h
+        · exact absurd (Or.inl h) e
+        · exact absurd (Or.inr h) e
+        · exact h
+      unfold Spec.Uri.escapesOk at this
+      cases hd : pctDecode parts.host with
+      | none => simp [hd] at this
+      | some d => exact ⟨[(3, d.map lowerAscii)], by simp [e]⟩
+  obtain ⟨ps, hp⟩ := hp
+  obtain ⟨qs, hq⟩ := hq
+  obtain ⟨ho, hho⟩ := hho
+  refine ⟨ho ++ portOption Generated.Uri.schemes parts.scheme parts.port ++ ps.map (fun v => (11, v)) ++ qs.map (fun v => (15, v)), ?_⟩
+  simp only [uriOptions, hux, hp, hq, hho, Bool.false_eq_true, if_false]
+
+-- "coap://EXAMPLE.com:1234/../x/%2e/y%2Fz?a&b%26" sent to 192.0.2.1: Uri-Host "example.com", Uri-Port 1234, Uri-Path "x", "y/z",
+-- Uri-Query "a", "b&"  (S defined, M equal)
+example :
+    (Spec.Uri.splitUri Generated.Uri.schemes false [99, 111, 97, 112, 58, 47, 47, 69, 88, 65, 77, 80, 76, 69, 46, 99, 111, 109, 58, 49, 50, 51, 52, 47, 46, 46, 47, 120, 47, 37, 50, 101, 47, 121, 37, 50, 70, 122, 63, 97, 38, 98, 37, 50, 54]).bind (uriOptions Generated.Uri.schemes [49, 57, 50, 46, 48, 46, 50, 46, 49]) =
+      some [(3, [101, 120, 97, 109, 112, 108, 101, 46, 99, 111, 109]), (7, [4, 210]), (11, [120]), (11, [121, 47, 122]), (15, [97]), (15, [98, 38])] ∧
+    (match MU.splitUriSub false [99, 111, 97, 112, 58, 47, 47, 69, 88, 65, 77, 80, 76, 69, 46, 99, 111, 109, 58, 49, 50, 51, 52, 47, 46, 46, 47, 120, 47, 37, 50, 101, 47, 121, 37, 50, 70, 122, 63, 97, 38, 98, 37, 50, 54] with
+     | .ok u => uriIntoOptlist [49, 57, 50, 46, 48, 46, 50, 46, 49] u
+     | _ => R.rej) =
+      R.ok [(3, [101, 120, 97, 109, 112, 108, 101, 46, 99, 111, 109]), (7, [4, 210]), (11, [120]), (11, [121, 47, 122]), (15, [97]), (15, [98, 38])] := by decide
+-- "coaps://192.0.2.1:5684/a" sent to 192.0.2.1: neither Uri-Host nor Uri-Port
+example : (Spec.Uri.splitUri Generated.Uri.schemes false [99, 111, 97, 112, 115, 58, 47, 47, 49, 57, 50, 46, 48, 46, 50, 46, 49, 58, 53, 54, 56, 52, 47, 97]).bind (uriOptions Generated.Uri.schemes [49, 57, 50, 46, 48, 46, 50, 46, 49]) =
+    some [(11, [97])] := by decide
+-- "coap://[fe80::1%25eth0]/" sent to fe80::1: the zone identifier does not count, no option at all
+example : (Spec.Uri.splitUri Generated.Uri.schemes false [99, 111, 97, 112, 58, 47, 47, 91, 102, 101, 56, 48, 58, 58, 49, 37, 50, 53, 101, 116, 104, 48, 93, 47]).bind (uriOptions Generated.Uri.schemes [102, 101, 56, 48, 58, 58, 49]) =
+    some [] := by decide
+
+-- the hypotheses of `uri_options_defined` on "coap://a%41b:0005683/%2e?": host "a%41b" is emitted and decodes ("aab")
+example : ∃ p, Spec.Uri.splitUri Generated.Uri.schemes false [99, 111, 97, 112, 58, 47, 47, 97, 37, 52, 49, 98, 58, 48, 48, 48, 53, 54, 56, 51, 47, 37, 50, 101, 63] = some p ∧
+    unixHost p.host = false ∧ Spec.Uri.escapesOk p.host = true ∧
+    uriOptions Generated.Uri.schemes [49, 57, 50, 46, 48, 46, 50, 46, 49] p = some [(3, [97, 97, 98])] :=
+  ⟨⟨0, [97, 37, 52, 49, 98], 5683, [37, 50, 101], []⟩, by decide⟩
+
+/-- (P2, "reads only the bytes of the length-delimited input", the URI level) for **every** byte string — Unix-socket
+authorities (D16f) and malformed hosts included — and every parsed URI, coap_split_uri / coap_split_proxy_uri and
+coap_uri_into_optlist stay inside what they were given (every read of the model is guarded by the remaining length
+exactly as in the C code; the component calls are those of `no_overread`). -/
+theorem uri_no_overread (dst : Bytes) (proxy : Bool) (s : Bytes) (u : MU.Uri) :
+    MU.splitUriSub proxy s ≠ R.oob ∧ uriIntoOptlist dst u ≠ R.oob :=
+  ⟨splitUriSub_not_oob proxy s, uriIntoOptlist_not_oob dst u⟩
+
+-- a Unix-socket authority: outside S, still parsed inside the buffer ("coap://%2Fs": host "%2Fs", port 0)
+example : MU.splitUriSub false [99, 111, 97, 112, 58, 47, 47, 37, 50, 70, 115] = R.ok ⟨0, [37, 50, 70, 115], 0, [], []⟩ := by decide
+
+/-! ### round trip: URI → options → reconstructed string → options -/
+
+/-- (P2) path string → Uri-Path options → the path string coap_get_uri_path reconstructs (the resource lookup key)
+→ options again is the identity on option lists, a single empty segment counting as no segment — for every path
+string with well-formed escapes (the options never contain "." / "..", so D5's exclusion is vacuous here). -/
+theorem path_roundtrip (input : Bytes) (ps : List Bytes) (h : Spec.Uri.splitPath input = some ps) (hs : Small ps) :
+    pathOpts input = R.ok ps ∧
+    ∃ str ps', getUriPath ps = R.ok str ∧ pathOpts str = R.ok ps' ∧ norm ps' = norm ps ∧ (ps ≠ [] → ps' = ps) := by
+  have ⟨h1, hd⟩ := dot_segments_never_emitted input ps h
+  refine ⟨h1, ?_⟩
+  by_cases hne : ps = []
+  · subst hne
+    exact ⟨[], [[]], by decide, by decide, by decide, fun f => absurd rfl f⟩
+  · obtain ⟨str, g1, g2⟩ := path_feeds_back ps hs hne hd
+    exact ⟨str, ps, g1, g2, rfl, fun _ => rfl⟩
+
+/-- the same for the query: here the option list is never empty, the round trip is the identity outright -/
+theorem query_roundtrip (input : Bytes) (qs : List Bytes) (h : Spec.Uri.splitQuery input = some qs) (hs : Small qs) :
+    queryOpts input = R.ok qs ∧
+    ∃ str, getQuery qs = R.ok (if str = [] then none else some str) ∧ queryOpts str = R.ok qs := by
+  refine ⟨queryOpts_eq input qs h, ?_⟩
+  exact query_feeds_back qs hs (splitQuery_ne_nil input qs h)
+
+/-- (P2, end to end) take **any** byte string coap_split_uri / coap_split_proxy_uri accepts (authority not "%2F…",
+D16f) and any option chain coap_uri_into_optlist builds from the result; let `ps` / `qs` be its Uri-Path (11) /
+Uri-Query (15) values (each < 65536 bytes).  Then the path and query strings libcoap reconstructs from them split
+back into the same values — modulo the single empty segment, which reconstructs to the empty string / NULL. -/
+theorem uri_options_roundtrip (dst : Bytes) (proxy : Bool) (s : Bytes) (u : MU.Uri) (opts : List (Nat × Bytes))
+    (hu : unixAuthority s = false) (h1 : MU.splitUriSub proxy s = R.ok u) (h2 : uriIntoOptlist dst u = R.ok opts)
+    (hsp : Small (valuesOf 11 opts)) (hsq : Small (valuesOf 15 opts)) :
+    (∃ str ps', getUriPath (valuesOf 11 opts) = R.ok str ∧ pathOpts str = R.ok ps' ∧
+        norm ps' = norm (valuesOf 11 opts)) ∧
+    (∃ str qs', getQuery (valuesOf 15 opts) = R.ok (if str = [] then none else some str) ∧ queryOpts str = R.ok qs' ∧
+        norm qs' = norm (valuesOf 15 opts)) := by
+  rw [(split_uri_eq_spec proxy s hu).2] at h1
+  cases hS : Spec.Uri.splitUri Generated.Uri.schemes proxy s with
+  | none => simp [hS] at h1
+  | some parts =>
+    simp only [hS] at h1
+    have hue := (R.ok.inj h1).symm
+    have ⟨_, _, i3, i4, _⟩ := splitUri_inv proxy s parts hS
+    have ep : u.path = parts.path := by rw [hue]; rfl
+    have eq : u.query = parts.query := by rw [hue]; rfl
+    rw [← ep] at i3
+    rw [← eq] at i4
+    obtain ⟨ps0, hps0⟩ := splitPath_defined _ i3
+    obtain ⟨qs0, hqs0⟩ := splitQuery_defined _ i4
+    -- what the two component calls of coap_uri_into_optlist return
+    have hp : ∃ ps, pathOptions u.path = some ps ∧ (ps = [] ∨ Spec.Uri.splitPath u.path = some ps) := by
+      unfold pathOptions
+      by_cases e : u.path = []
+      · exact ⟨[], by simp [e], Or.inl rfl⟩
+      · exact ⟨ps0, by simp [e, hps0], Or.inr hps0⟩
+    have hq : ∃ qs, queryOptions u.query = some qs ∧ (qs = [] ∨ Spec.Uri.splitQuery u.query = some qs) := by
+      unfold queryOptions
+      by_cases e : u.query = []
+      · exact ⟨[], by simp [e], Or.inl rfl⟩
+      · exact ⟨qs0, by simp [e, hqs0], Or.inr hqs0⟩
+    obtain ⟨ps, hpo, hps⟩ := hp
+    obtain ⟨qs, hqo, hqs⟩ := hq
+    have ⟨v11, v15⟩ := uriIntoOptlist_values dst u ps qs opts (pathRes_eq _ _ hpo) (queryRes_eq _ _ hqo) h2
+    rw [v11] at hsp ⊢
+    rw [v15] at hsq ⊢
+    constructor
+    · rcases hps with e | e
+      · subst e; exact ⟨[], [[]], by decide, by decide, by decide⟩
+      · obtain ⟨_, str, ps', g1, g2, g3, _⟩ := path_roundtrip u.path ps e hsp
+        exact ⟨str, ps', g1, g2, g3⟩
+    · rcases hqs with e | e
+      · subst e; exact ⟨[], [[]], by decide, by decide, by decide⟩
+      · obtain ⟨_, str, g1, g2⟩ := query_roundtrip u.query qs e hsq
+        exact ⟨str, qs, g1, g2, rfl⟩
+
+instance (segs : List Bytes) : Decidable (Small segs) := by unfold Small; infer_instance
+
+-- "a/%2e./b%2Fc/" : options "b/c", "" ; key "b%2Fc/" ; options again "b/c", ""
+example : Spec.Uri.splitPath [97, 47, 37, 50, 101, 46, 47, 98, 37, 50, 70, 99, 47] = some [[98, 47, 99], []] ∧ Small [[98, 47, 99], []] ∧
+    getUriPath [[98, 47, 99], []] = R.ok [98, 37, 50, 70, 99, 47] ∧
+    pathOpts [98, 37, 50, 70, 99, 47] = R.ok [[98, 47, 99], []] := by decide
+-- "./" : the single empty segment reconstructs to the empty string, which splits into the single empty segment
+example : Spec.Uri.splitPath [46, 47] = some [[]] ∧ getUriPath [[]] = R.ok [] ∧ pathOpts [] = R.ok [[]] := by decide
+-- "x=%26&&y" : options "x=&", "", "y"
+example : Spec.Uri.splitQuery [120, 61, 37, 50, 54, 38, 38, 121] = some [[120, 61, 38], [], [121]] ∧ Small [[120, 61, 38], [], [121]] ∧
+    getQuery [[120, 61, 38], [], [121]] = R.ok (some [120, 61, 37, 50, 54, 38, 38, 121]) ∧
+    queryOpts [120, 61, 37, 50, 54, 38, 38, 121] = R.ok [[120, 61, 38], [], [121]] := by decide
+-- the hypotheses of uri_options_roundtrip on "coap://EXAMPLE.com:1234/../x/%2e/y%2Fz?a&b%26"
+example : unixAuthority [99, 111, 97, 112, 58, 47, 47, 69, 88, 65, 77, 80, 76, 69, 46, 99, 111, 109, 58, 49, 50, 51, 52, 47, 46, 46, 47, 120, 47, 37, 50, 101, 47, 121, 37, 50, 70, 122, 63, 97, 38, 98, 37, 50, 54] = false ∧
+    (match MU.splitUriSub false [99, 111, 97, 112, 58, 47, 47, 69, 88, 65, 77, 80, 76, 69, 46, 99, 111, 109, 58, 49, 50, 51, 52, 47, 46, 46, 47, 120, 47, 37, 50, 101, 47, 121, 37, 50, 70, 122, 63, 97, 38, 98, 37, 50, 54] with
+     | .ok u => (match uriIntoOptlist [49, 57, 50, 46, 48, 46, 50, 46, 49] u with
+                 | .ok opts => some (valuesOf 11 opts, valuesOf 15 opts)
+                 | _ => none)
+     | _ => none) = some ([[120], [121, 47, 122]], [[97], [98, 38]]) := by decide
 
 end Coap.C16
